@@ -36,13 +36,15 @@
   * `old_*` witness theorems: the integer widths of the tree before the `fix:` commits did not
     suffice at display scale (why each widening was needed).
   * C08/Reject.lean: rejection without panic (corollaries of C09, C10, C11 + `checked_mul`,
-    sub-image crop).  C08/Termination.lean: step bounds of the modelled iterators.
+    sub-image crop).  C08/Termination.lean, C08/TerminationThick.lean: the modelled iterators
+    reach `None`, with step bounds (rectangles, lines, circles, ellipses, raw data, images, cropped
+    streams, polylines; stroked lines / polylines, styled triangles, rounded rectangles, sectors, arcs).
 
   Not proved (what Lean cannot carry):
   -- [V] no heap allocation in any constructor, query or draw: carried by correspondence + oracle only (counting global allocator, streams scale.shape/text/image/reject)
   -- [V] no panic in code that has no checked model (f32 trigonometry of the default build (`PlaneSector::new`, bevel selection: micromath), the point steps of `ParallelsIterator` inside `Line::extents`, and the slicing / control flow of `ThickSegmentIter`, `ClosedThickSegmentIter`, `ScanlineIntersections` around the checked join and segment kernels): carried by correspondence + oracle only
   -- [V] the `fixed_point` feature build: the f32 -> I16F16 conversions of angles (`Angle::from_degrees`, `I16F16::from_num` range; the I16F16 pipeline behind them is proved total in C08/Sector.lean): carried by correspondence + oracle only (thorough tier)
-  -- [V] termination of the real iterators within the step bounds of C08/Termination.lean (proved for the models): carried by correspondence + oracle only (iteration budgets of the scale.* streams)
+  -- [V] termination of the real iterators within the step bounds of C08/Termination.lean and C08/TerminationThick.lean (proved for the models, all inputs): carried by correspondence + oracle only (iteration budgets of the scale.* streams)
   -- [V] the checked kernels transcribe the operation sequence and integer widths of the Rust source: carried by correspondence only (streams scale.chk.*: `panic` exactly where the checked model says `none`, also far outside the display scale)
 -/
 import EG.Lemmas.CheckedDS
